@@ -463,7 +463,18 @@ theorem hasCause_cons (cfg : Cfg) (e : Ev) (es : List Ev) :
     hasCause cfg (e :: es) = (hasCause cfg [e] || hasCause cfg es) := by
   simp [hasCause]
 
-theorem step_cur_cause {cfg : Cfg} {s : St} {e : Ev}
+/- OLD STATEMENT (false since a savepoint rollback restores the unit of work remembered at
+SAVEPOINT):
+
+    theorem step_cur_cause {cfg : Cfg} {s : St} {e : Ev}
+        (h : (step cfg s e).uowD.cur.isSome = true) :
+        s.uowD.cur.isSome = true ∨ hasCause cfg [e] = true
+
+Counterexample: `s := { sps := [({}, some { cur := some 1 })] }` (no unit of work, but the savepoint
+remembers one with a current transaction) and `e := .spRollback`: after the step the current
+transaction is `some 1`, before it there was none, and `.spRollback` is no cause.  The corrected
+statement excludes that one event (which `WF` excludes anyway: `wf_no_spRollback`). -/
+theorem step_cur_cause_corrected {cfg : Cfg} {s : St} {e : Ev} (hsp : e ≠ .spRollback)
     (h : (step cfg s e).uowD.cur.isSome = true) :
     s.uowD.cur.isSome = true ∨ hasCause cfg [e] = true := by
   have h0 : ({ s with uow := some s.uowD } : St).uowD = s.uowD := rfl
@@ -514,13 +525,30 @@ theorem step_cur_cause {cfg : Cfg} {s : St} {e : Ev}
   | rollback => exact absurd h (by simp [step, St.uowD])
   | spBegin => exact Or.inl h
   | spCommit => exact Or.inl h
-  | spRollback =>
-    simp only [step] at h
-    split at h
-    · exact Or.inl h
-    · exact Or.inl h
+  | spRollback => exact absurd rfl hsp
 
-theorem run_cur_cause {cfg : Cfg} {s : St} {evs : List Ev}
+/-- a well-formed trace contains no savepoint rollback -/
+theorem wf_no_spRollback {cfg : Cfg} {s : St} {evs : List Ev} (hwf : WF cfg s evs) :
+    ∀ e ∈ evs, e ≠ .spRollback := by
+  induction evs generalizing s with
+  | nil => intro e he; cases he
+  | cons e es ih =>
+    intro x hx
+    rcases List.mem_cons.1 hx with rfl | hx
+    · intro heq
+      have h1 := hwf.1
+      rw [heq] at h1
+      exact h1
+    · exact ih hwf.2 x hx
+
+/- OLD STATEMENT (false for the same reason as `step_cur_cause`, same counterexample with
+`evs := [.spRollback]`):
+
+    theorem run_cur_cause {cfg : Cfg} {s : St} {evs : List Ev}
+        (h : (run cfg s evs).uowD.cur.isSome = true) :
+        s.uowD.cur.isSome = true ∨ hasCause cfg evs = true -/
+theorem run_cur_cause_corrected {cfg : Cfg} {s : St} {evs : List Ev}
+    (hsp : ∀ e ∈ evs, e ≠ .spRollback)
     (h : (run cfg s evs).uowD.cur.isSome = true) :
     s.uowD.cur.isSome = true ∨ hasCause cfg evs = true := by
   induction evs generalizing s with
@@ -528,8 +556,8 @@ theorem run_cur_cause {cfg : Cfg} {s : St} {evs : List Ev}
   | cons e es ih =>
     rw [run_cons] at h
     rw [hasCause_cons]
-    rcases ih h with h1 | h1
-    · rcases step_cur_cause h1 with h2 | h2
+    rcases ih (fun e he => hsp e (List.mem_cons_of_mem _ he)) h with h1 | h1
+    · rcases step_cur_cause_corrected (hsp e List.mem_cons_self) h1 with h2 | h2
       · exact Or.inl h2
       · right; simp [h2]
     · right; simp [h1]
